@@ -40,7 +40,13 @@ def post_template(rng, vars_):
         r = rng.random()
         if r < 0.5: return rng.choice(vars_)
         if r < 0.58: flags["unbound"] = True; return rng.choice(["?zz", "?_u1", "?W"])     # a naked variable nothing binds
-        if r < 0.60: flags["mixed"] = True; return rng.choice(["id-?w", "?w/?l", "x ?t.", "?w?", "??w"])   # text mixed with variables: outside the model
+        if r < 0.60: flags["mixed"] = True; return rng.choice(["?w?", "??w", "?event!", "cost $1 ?w", "?w?l"])   # text mixed with variables in ways the model does not follow (a token right after another: the answer depends on Go's map order)
+        if r < 0.66:
+            # text mixed with variables (modelled: substMixed): every `?name` token that is a bound variable is replaced by the text of its
+            # value, and only whole tokens are -- `?w` inside `?w2` or `?wx` is not the variable ?w
+            vs = [v for v in vars_ if v != "?event"] or ["?w"]
+            a, b = rng.choice(vs), rng.choice(vs)
+            return rng.choice(["id-%s" % a, "%s/%s" % (a, b), "x %s." % a, "<%s2>" % a, "%s %sx %s_" % (a, a, b), "%s,%s;%s" % (a, b, a), "%s-2" % a])
         if r < 0.75: return rng.choice(["c", "tacos", "", "w", "no var here", "a.b-c"])
         if r < 0.9: return rng.choice([0, 1, 2, -7, 1000000])
         return rng.choice([True, False, None])
